@@ -37,25 +37,29 @@ Section Server.
       encode (set_mic f1 m).
 
   (* the frame GetPHYPayloadForDevice builds and the encoder completes with FCnt = FCntDn *)
-  Definition downlink_frame (dev : device) (p : phyout) : frame :=
+  Definition downlink_frame (dev : device) (p : phyout) (c : N) : frame :=
     let base := new_phy (po_mtype p) in
     {| mtype := po_mtype p; major := c_MaxSupportedVersion; f_devaddr := devaddr_of_u32 (d_addr dev);
        fc := {| adr := false; adrackreq := false; ack := po_ack p; fpending := po_pending p; classb := false; foptslen := 0 |};
-       fcnt := d_fdn dev; fopts := fopts base; fport := po_port p; frm := po_frm p; maccmds := maccmds base;
+       fcnt := c; fopts := fopts base; fport := po_port p; frm := po_frm p; maccmds := maccmds base;
        mic := 0; jr := jr base; ja := ja base |}.
 
-  (* Encoder.processMessage for a data downlink: dev is the handler's snapshot of the device *)
+  (* Encoder.processMessage for a data downlink: dev is the handler's snapshot of the device (keys, address);
+     the frame counter is reserved in the store *)
   Definition encoder_data (st : dstate) (dev : device) (p : phyout) (rx : rxpacket) (created now : N) : dstate * list out :=
-    match encode_message (d_nwkskey dev) (d_appskey dev) (downlink_frame dev p) with
-    | Ok buf =>
-      let st1 := l_set_sent_time st created now (d_fup dev) in
-      let dev' := set_counters dev (d_fup dev) ((d_fdn dev + 1) mod 65536) (d_keywarn dev) in
-      match l_update_device_state st1 dev' with
-      | (st2, None) =>
+    match encode (downlink_frame dev p 0) with   (* the trial MarshalBinary: no counter for a frame that cannot be sent *)
+    | Ok _ =>
+    match l_next_fdn st with
+    | (st1, Some c) =>
+      match encode_message (d_nwkskey dev) (d_appskey dev) (downlink_frame dev p c) with
+      | Ok buf =>
+        let st2 := l_set_sent_time st1 created now (d_fup dev) in
         (st2, if (length buf =? 0)%nat then []
               else [ODown {| dl_raw := buf; dl_radio := rx_radio rx; dl_gw := rx_gw rx; dl_rx1delay := 1; dl_eui := d_eui dev |}])
-      | (st2, Some _) => (st2, [])
+      | _ => (st1, [])
       end
+    | (st1, None) => (st1, [])
+    end
     | _ => (st, [])
     end.
 
@@ -88,8 +92,10 @@ Section Server.
     let kw := if (1 <? nmatch)%nat then true else d_keywarn dev in
     if d_fup dev <=? fcnt f then
       let dev1 := set_counters dev ((fcnt f + 1) mod 65536) (d_fdn dev) kw in
-      match l_update_device_state st dev1 with
+      (* the store repeats the comparison together with the write *)
+      match l_advance_fup st (fcnt f) ((fcnt f + 1) mod 65536) kw with
       | (st1, None) => Some (st1, dev1)
+      | (_, Some SNotFound) => if d_relaxed dev then Some (st, dev1) else None
       | (_, Some _) => None
       end
     else Some (st, set_counters dev (d_fup dev) (d_fdn dev) kw).
